@@ -5,6 +5,7 @@ package main
 import (
 	"flag"
 	"fmt"
+	"math/big"
 	"math/rand"
 
 	"github.com/v-byte-cpu/sx/pkg/scan"
@@ -29,6 +30,9 @@ type obs struct {
 	Count int64  `json:"count,omitempty"`
 	Dup   string `json:"dup,omitempty"`
 	OOR   string `json:"oor,omitempty"`
+	// jump cases: the element whose predecessor the iterator was moved to, and what one step yielded
+	JumpTarget int64  `json:"jump_target,omitempty"`
+	JumpGot    string `json:"jump_got,omitempty"`
 }
 
 // newIter calls the real constructor; a panic becomes an error text (the property demands an error value)
@@ -114,10 +118,60 @@ func main() {
 	one := flag.String("replay", "", "replay one case: n,seed,k")
 	walk := flag.String("walk", "", "walk one whole range with a bitmap: n,seed,limit")
 	sweep := flag.String("sweep", "", "exhaustive small sizes: N,S = every n in 1..N under seeds 1..S, walked completely with a bitmap")
+	jump := flag.Bool("jump", false, "for sizes at both ends of every table row and around 2^32: from the predecessor of n, n-1, 1 and a middle element one step must yield that element")
 	sparse := flag.String("sparse", "", "sparse sizes: LIMIT,S = for every table row with P <= LIMIT the sizes just above the previous row's prime (about half of the group is out of range), walked completely with a bitmap under S seeds")
 	flag.Parse()
 	w := hlib.NewOut(*out)
 	defer w.Close()
+	if *jump {
+		// every element of 1..n is yielded: move the iterator to the predecessor (on its own cycle) of chosen targets
+		// -- n itself, n-1, 1, and a middle element -- and take one step; also beyond the end: the successor of an
+		// element may never be outside 1..n
+		rows := scan.VerifCyclicGroups()
+		var sizes []int64
+		prev := int64(1)
+		for _, row := range rows {
+			sizes = append(sizes, prev, row[0]-1)
+			prev = row[0]
+		}
+		sizes = append(sizes, 1<<32, 1<<32-1, 1<<31, 1<<16, 255, 256, 2)
+		for _, n := range sizes {
+			if n < 2 {
+				continue
+			}
+			for y := int64(1); y <= 2; y++ {
+				for _, t := range []int64{n, n - 1, 1, n/2 + 1} {
+					o := obs{N: n, Seed: y*15485863 + n, K: 1, Class: "jump", Walk: true}
+					rand.Seed(o.Seed)
+					it, kind := newIter(n)
+					if kind != "" {
+						o.Err = kind
+						w.Put(o)
+						continue
+					}
+					o.P, o.G, o.StartI = it.P().String(), it.G().String(), it.StartI().String()
+					target := big.NewInt(t)
+					if target.Cmp(it.StartI()) == 0 {
+						continue // the walk ends when it comes back to its start: that element was yielded first
+					}
+					inv := new(big.Int).ModInverse(it.G(), it.P())
+					pred := new(big.Int).Mul(target, inv)
+					pred.Mod(pred, it.P())
+					it.SetI(pred)
+					o.JumpTarget = t
+					if it.Next() {
+						o.Outs = []int64{it.Int().Int64()}
+						o.JumpGot = it.Int().String()
+					} else {
+						o.JumpGot = "end"
+					}
+					o.Count = 1
+					w.Put(o)
+				}
+			}
+		}
+		return
+	}
 	if *sparse != "" {
 		var lim, sd int64
 		var k int
